@@ -547,10 +547,17 @@ static void cmpWell(const Well& a, const Well& b, const SchedCmpOpts& opt, Diff&
         d.feat["well:multi-segment"]++;
         d.exact("seg.count", sa.size(), sb.size());
         d.enm("seg.compPressureDrop", sa.compPressureDrop(), sb.compPressureDrop());
-        for (size_t i = 0; i < (size_t)sa.size() && i < (size_t)sb.size(); ++i) {
+        // Segments are matched by NUMBER.  The position inside WellSegments is a representation: the original orders the segments
+        // branch by branch (WellSegments::orderSegments), the restarted one takes them in the order of the file (by number); both keep
+        // every outlet ahead of its inlets and every user goes through segmentNumberToIndex().  A different order is counted only.
+        bool sameOrder = true;
+        for (size_t i = 0; i < (size_t)sa.size() && i < (size_t)sb.size(); ++i) if (sa[i].segmentNumber() != sb[i].segmentNumber()) sameOrder = false;
+        if (!sameOrder) d.feat["well:segment storage order differs between original and restarted (matched by number)"]++;
+        for (size_t i = 0; i < (size_t)sa.size(); ++i) {
             const auto& x = sa[i];
-            const auto& y = sb[i];
             d.ctx = "well " + a.name() + " segment " + std::to_string(x.segmentNumber());
+            if (sb.segmentNumberToIndex(x.segmentNumber()) < 0) { d.add("seg.missing", "segment " + std::to_string(x.segmentNumber()) + " of the original is not in the restarted well"); continue; }
+            const auto& y = sb.getFromSegmentNumber(x.segmentNumber());
             d.exact("seg.number", x.segmentNumber(), y.segmentNumber());
             d.exact("seg.branch", x.branchNumber(), y.branchNumber());
             d.exact("seg.outlet", x.outletSegment(), y.outletSegment());
